@@ -1347,7 +1347,7 @@ func allocKept(a *ssa.Alloc, allowReturn bool) bool {
 	}
 	var ok func(v ssa.Value, depth int) bool
 	ok = func(v ssa.Value, depth int) bool {
-		if depth > 4 {
+		if depth > 8 {
 			return false
 		}
 		rs := v.Referrers()
@@ -1377,7 +1377,7 @@ func allocKept(a *ssa.Alloc, allowReturn bool) bool {
 				// x.WriteString(..), x.String() on a local strings.Builder / bytes.Buffer: modelled
 				// as operations on its content, the builder does not escape
 				cal := r.Call.StaticCallee()
-				if cal != nil && curProg != nil && curProg.IsNewHelper(cal) && depth < 3 {
+				if cal != nil && curProg != nil && curProg.IsNewHelper(cal) && depth < 6 {
 					// handed to a helper outside the vocabulary (always expanded): local if the helper
 					// only reads and writes through the parameter
 					kept := true
